@@ -565,6 +565,24 @@ func TestC16(t *testing.T) {
 			}
 		}
 	}
+	// keys that are not plain strings
+	for _, ex := range []struct{ text, clause string }{
+		{"name: n\narch: a\nversion: 1\n~: x\n", "C16.strict.null-key-accepted"},
+		{"name: n\narch: a\nversion: 1\ndeb:\n  ~: x\n", "C16.strict.null-key-accepted"},
+		{"name: n\narch: a\nversion: 1\n? \n: x\n", "C16.strict.null-key-accepted"},
+		{"name: n\narch: a\nversion: 1\n1: x\n", "C16.strict.unknown-key-accepted"},
+		{"name: n\narch: a\nversion: 1\ntrue: x\n", "C16.strict.unknown-key-accepted"},
+		{"name: n\narch: a\nversion: 1\n[a, b]: x\n", "C16.strict.unknown-key-accepted"},
+		{"name: n\narch: a\nversion: 1\ncontents:\n- dst: /x\n  type: dir\n  ~: y\n", "C16.strict.null-key-accepted"},
+	} {
+		st.Record(map[string]string{"exotic-key-doc": ex.text}, true, "exotic-key")
+		nMut++
+		if _, err := parseText(ex.text, noEnv); err == nil {
+			var vs vlist
+			vs.add(ex.clause, "", "document with a key the parser does not define is accepted: %q", ex.text)
+			report(map[string]any{"text": ex.text}, vs)
+		}
+	}
 	st.Exhaustive["key paths (reflection) with a correctly spelled control document"] = nCtl
 	st.Exhaustive["misspelled documents"] = nMut
 	st.Label("key-paths", len(paths))
